@@ -571,7 +571,8 @@ class VM:
             if b_num == 0:
                 # Check sign of zero using copysign
                 b_sign = math.copysign(1, b_num)
-                if a_num == 0:
+                if a_num == 0 or a_num != a_num:
+                    # 0 / 0, and NaN divided by anything
                     self.stack.append(float("nan"))
                 elif (a_num > 0) == (b_sign > 0):  # Same sign
                     self.stack.append(float("inf"))
